@@ -241,6 +241,7 @@ func libDescs(ds []qDesc) nasType.QoSFlowDescs {
 // cases ----------------------------------------------------------------------------------------------
 
 func c15RulesExec(c *core.Ctx, in c15Rules) {
+	guardReset()
 	nf := 0
 	for _, r := range in.Rules {
 		nf += len(r.Filters)
@@ -256,9 +257,13 @@ func c15RulesExec(c *core.Ctx, in c15Rules) {
 		v := libRules(in.Rules)
 		enc, err = v.MarshalBinary()
 		if err == nil {
-			err2 = back.UnmarshalBinary(append([]byte{}, enc...))
+			err2 = back.UnmarshalBinary(guardIn(enc))
 		}
 	})
+	if w := guardCheck(); w != "" && pi == nil {
+		fail("parse-writes-to-callers-buffer", fmt.Sprintf("parsing %x: %s", clip(enc), w))
+		return
+	}
 	if pi != nil {
 		fail(pi.Key(), "panics: "+pi.Msg)
 		return
@@ -324,6 +329,7 @@ func normDescs(ds nasType.QoSFlowDescs) nasType.QoSFlowDescs {
 }
 
 func c15DescsExec(c *core.Ctx, in c15Descs) {
+	guardReset()
 	np := 0
 	for _, d := range in.Descs {
 		np += len(d.Params)
@@ -339,9 +345,13 @@ func c15DescsExec(c *core.Ctx, in c15Descs) {
 		v := libDescs(in.Descs)
 		enc, err = v.MarshalBinary()
 		if err == nil {
-			err2 = back.UnmarshalBinary(append([]byte{}, enc...))
+			err2 = back.UnmarshalBinary(guardIn(enc))
 		}
 	})
+	if w := guardCheck(); w != "" && pi == nil {
+		fail("parse-writes-to-callers-buffer", fmt.Sprintf("parsing %x: %s", clip(enc), w))
+		return
+	}
 	if pi != nil {
 		fail(pi.Key(), "panics: "+pi.Msg)
 		return
@@ -374,6 +384,7 @@ func c15DescsExec(c *core.Ctx, in c15Descs) {
 
 // reference verdict on unknown identifiers: does a straightforward reader meet an unknown component / parameter id?
 func c15RawExec(c *core.Ctx, in c15Raw) {
+	guardReset()
 	data := unhex(in.Hex)
 	c.Distinct(core.Hash64(in.Parser, data), len(data) >= 3)
 	var err error
@@ -381,17 +392,21 @@ func c15RawExec(c *core.Ctx, in c15Raw) {
 		switch in.Parser {
 		case "rules":
 			var r nasType.QoSRules
-			err = r.UnmarshalBinary(append([]byte{}, data...))
+			err = r.UnmarshalBinary(guardIn(data))
 		case "descs":
 			var d nasType.QoSFlowDescs
-			err = d.UnmarshalBinary(append([]byte{}, data...))
+			err = d.UnmarshalBinary(guardIn(data))
 		case "components":
 			var l nasType.PacketFilterComponentList
-			err = l.UnmarshalBinary(append([]byte{}, data...))
+			err = l.UnmarshalBinary(guardIn(data))
 		}
 	})
 	if pi != nil {
 		c.FailCase("parse|"+in.Parser+"|"+pi.Key(), fmt.Sprintf("parsing %x as %s panics: %s", clip(data), in.Parser, pi.Msg), "raw", in)
+		return
+	}
+	if w := guardCheck(); w != "" {
+		c.FailCase("parse|"+in.Parser+"|writes-to-callers-buffer", fmt.Sprintf("parsing %x as %s: %s", clip(data), in.Parser, w), "raw", in)
 		return
 	}
 	// unknown identifiers are errors (checked where the reference reader reaches one unambiguously)
